@@ -187,6 +187,9 @@ impl World {
 
 pub fn gen_op(rng: &mut Rng, cfg: &GenCfg, w: &World) -> Op {
     let live = w.live();
+    if live.is_empty() {
+        return Op::Rounding(true);
+    }
     let pick = |rng: &mut Rng| live[rng.below(live.len() as u64) as usize];
     match rng.below(20) {
         0..=3 => Op::SetStyle(pick(rng), style(rng, cfg, false, false)),
